@@ -204,6 +204,57 @@ def library_stream(R, H, r, fails, stats):
             fails.append({"why": "a library function panicked: " + str(resp.get("panic", resp))[:200], "op_kind": k, "request": last.get("req")})
 
 
+SHAPE_ALPHABET = "Ab1_ -."
+SHAPED_REPLACEMENTS = ["QAHandbook", "DBRecord", "IOStream", "UIKit", "X2Go", "aB", "AB_cd", "A_b", "iOS", "eBay", "QA", "Q", "AB-c", "AB.c d",
+                       "qa_handbook", "APIHandbook", "a1B2", "A1b"]
+
+
+def shaped_stream(R, H, r, fails, stats):
+    """(a) coercion on EVERY short replacement string over {capital, lower, digit, each separator} against containers written in every
+    style (exhaustive small scope, so every adjacency of capital runs, separators and lower-case letters reaches the tokenizer);
+    (b) on the CLI: a tree whose file and directory names carry the search term in all 14 style renderings, renamed to replacement
+    terms typed with one- and two-capital first words, digits and mixed separators."""
+    import itertools
+    ws = ["user", "guide"]
+    containers = [(gen.render(ws, st) + ext, gen.render(ws, st)) for st in gen.STYLES14 for ext in (".md",)]
+    containers += [("my_user_guide_x", "user_guide"), ("TheUserGuideBook", "UserGuide"), ("get-user-guide-now", "user-guide"),
+                   ("SOME_USER_GUIDE_ID", "USER_GUIDE"), ("A User guide here", "User guide")]
+    maxlen = 4 if R.tier == "quick" else 6
+    news = ["".join(t) for n in range(1, maxlen + 1) for t in itertools.product(SHAPE_ALPHABET, repeat=n)]
+    if R.tier == "quick":
+        news = [x for i, x in enumerate(news) if len(x) < 4 or i % 2 == 0]
+    stats["coercion_shape_calls"] = 0
+    for (cont, old) in containers:
+        for new in news:
+            req = {"op": "apply_coercion", "container": core.hx(cont), "old": core.hx(old), "new": core.hx(new)}
+            resp = H.ask(req)
+            stats["coercion_shape_calls"] += 1
+            if "panic" in resp or "crash" in resp:
+                fails.append({"why": "apply_coercion panicked: " + str(resp.get("panic", resp))[:200], "request": req,
+                              "container": cont, "old": old, "new": new})
+                break
+    R.case(("coercion_shapes", len(containers), len(news)), nontrivial=True)
+    tree = []
+    for st in gen.STYLES14:
+        nm = gen.render(ws, st)
+        tree.append({"p": nm + ".md", "k": "f", "c": (nm + " text\n").encode(), "m": 0o644})
+    tree.append({"p": "Release notes", "k": "d", "m": 0o755})
+    tree.append({"p": "Release notes/User guide for users.txt", "k": "f", "c": b"User guide\n", "m": 0o644})
+    reps = SHAPED_REPLACEMENTS if R.tier == "thorough" else SHAPED_REPLACEMENTS[:10]
+    for rep in reps:
+        for cmd in (["rename", "user_guide", rep], ["rename", "release_notes", rep, "--dry-run"]):
+            with cli.Sandbox(tree) as sb:
+                args = ["--no-auto-init", "-y"] + cmd
+                rc, o, e = sb.run(args, timeout=60)
+                stats["cli_runs"] += 1
+                stats["exit_codes"][rc] = stats["exit_codes"].get(rc, 0) + 1
+                R.case(("cli_shaped", tuple(args)), nontrivial=True)
+                err = e.decode("utf-8", "replace")
+                if rc == 101 or "panicked at" in err or rc not in OK_EXITS:
+                    fails.append({"why": f"command exited with status {rc}" + (": " + err[err.find("panicked at"):][:200] if "panicked at" in err else ""),
+                                  "args": args, "tree": cli.tree_json(tree), "history": [args], "build": "debug"})
+
+
 def run(R):
     R.trusted += ["Coq 8.16.1 kernel", "harness catch_unwind", "the CLI fuzz (search, not proof)"]
     proved = R.prove()
@@ -216,6 +267,7 @@ def run(R):
     fails = []
     stats = {"library_calls": 0, "cli_runs": 0, "exit_codes": {}, "builds": ["debug"]}
     library_stream(R, H, r, fails, stats)
+    shaped_stream(R, H, r, fails, stats)
     grammar = H.ask({"op": "clap_dump"}).get("ok")
     H.close()
     if not grammar:
